@@ -1467,11 +1467,24 @@ func (f *formatter) ExprTernary(n *ast.ExprTernary) {
 	n.IfFalse.Accept(f)
 }
 
+// firstOperand returns the expression whose first token directly follows a
+// unary sign: the operand itself or, because "**" binds tighter than the sign,
+// the leftmost base of a power expression.
+func firstOperand(n ast.Vertex) ast.Vertex {
+	for {
+		pow, ok := n.(*ast.ExprBinaryPow)
+		if !ok {
+			return n
+		}
+		n = pow.Left
+	}
+}
+
 func (f *formatter) ExprUnaryMinus(n *ast.ExprUnaryMinus) {
 	n.MinusTkn = f.newToken('-', []byte("-"))
-	switch n.Expr.(type) {
+	switch firstOperand(n.Expr).(type) {
 	case *ast.ExprUnaryMinus, *ast.ExprPreDec:
-		// "- -$a" and "- --$a" must not become "--$a" / "---$a"
+		// "- -$a", "- --$a" and "- --$a ** 2" must not become "--$a" / "---$a" / "---$a ** 2"
 		f.addFreeFloating(token.T_WHITESPACE, []byte(" "))
 	}
 	n.Expr.Accept(f)
@@ -1479,9 +1492,9 @@ func (f *formatter) ExprUnaryMinus(n *ast.ExprUnaryMinus) {
 
 func (f *formatter) ExprUnaryPlus(n *ast.ExprUnaryPlus) {
 	n.PlusTkn = f.newToken('+', []byte("+"))
-	switch n.Expr.(type) {
+	switch firstOperand(n.Expr).(type) {
 	case *ast.ExprUnaryPlus, *ast.ExprPreInc:
-		// "+ +$a" and "+ ++$a" must not become "++$a" / "+++$a"
+		// "+ +$a", "+ ++$a" and "+ ++$a ** 2" must not become "++$a" / "+++$a" / "+++$a ** 2"
 		f.addFreeFloating(token.T_WHITESPACE, []byte(" "))
 	}
 	n.Expr.Accept(f)
